@@ -137,6 +137,16 @@ func (c *T) m() uint { c.a[0] = 9; return c.a[0] }`, "T.m", false, "a slice fiel
 	{"returning a slice twice", `func f(n int) ([]byte, []byte) { r := make([]byte, 2); r[0] = byte(n); return r, r }`, "f", false, "share a backing array"},
 	{"partial array literal", `var tab = [5]int{1, 2}
 func f() int { s := 0; for i := range tab { s += i + tab[i] }; return s }`, "f", false, "does not list all 5 elements"},
+	// capacity is not modelled: a callee that slices a parameter with an upper bound must not be handed spare capacity
+	{"spare capacity passed to a reslicing callee", `func k(xs []byte) int { return len(xs) }
+func g(xs []byte) int { return k(xs[1:3]) + int(xs[0]) }
+func f(xs []byte) int { return g(xs[:2]) }`, "k,g,f", false, "capacity is not modelled"},
+	{"suffix window passed to a reslicing callee", `func k(xs []byte) int { return len(xs) }
+func g(xs []byte) int { return k(xs[1:3]) + int(xs[0]) }
+func f(xs []byte) int { return g(xs[1:]) }`, "k,g,f", true, "(g (xs.drop 1))"},
+	{"spare capacity passed through an intermediate function", `func g(xs []byte) int { xs = xs[:3]; return len(xs) }
+func h(xs []byte) int { a, b := 1, g(xs); return a + b }
+func f(xs []byte) int { return h(xs[:2]) }`, "g,h,f", false, "capacity is not modelled"},
 	{"three-clause for, <= len(x)-c too small", `func f(xs []byte) int { s := 0; for j := 0; j <= len(xs)-5; j += 6 { s += j }; return s }`, "f", false, "could wrap around"},
 	{"negative shift count in a function that may panic", `func f(xs []byte, n int) byte { return xs[0] << n }`, "f", true, "if !(Go.nonneg n) then Go.Flow.panic else"},
 	// reslicing and condition loops
